@@ -220,6 +220,7 @@ pub fn spec_c09() -> PropSpec {
     pf.set_dur_pct = 0;
     pf.max_steps = 40;
     pf.min_steps = 8;
+    pf.sym_hash_pct = 30;
     PropSpec {
         id: "C09",
         profile: pf,
@@ -230,4 +231,97 @@ pub fn spec_c09() -> PropSpec {
         runner: None,
         decode: None,
     }
+}
+
+
+// ---------------------------------------------------------------------------------------------
+// C08 (sequential part): interning is canonical within a revision, whoever interns — a query body
+// or the top level — and whatever happened to the slot before (reclaimed, re-hashed, resized).
+// ---------------------------------------------------------------------------------------------
+
+#[derive(Default)]
+pub struct Canon {
+    /// (revision, type, data) -> handle
+    by_data: std::collections::HashMap<(u32, u8, u32), u64>,
+    /// (revision, type, handle) -> data
+    by_id: std::collections::HashMap<(u32, u8, u64), u32>,
+    reused: u32,
+    reinterned_after_reuse: u32,
+    reused_ids: std::collections::HashSet<u64>,
+}
+
+impl Canon {
+    pub fn new() -> Self {
+        Canon::default()
+    }
+    fn note(&mut self, rev: u32, ty: u8, data: u32, id: u64, idx: usize, out: &mut Vec<Violation>) {
+        if self.reused_ids.contains(&id) {
+            self.reinterned_after_reuse += 1;
+        }
+        if let Some(prev) = self.by_data.insert((rev, ty, data), id) {
+            if prev != id {
+                out.push(viol("interned-equal-data-two-handles", idx, format!("revision R{rev}: type {ty} data {data} has handles {prev:#x} and {id:#x}")));
+            }
+        }
+        if let Some(prev) = self.by_id.insert((rev, ty, id), data) {
+            if prev != data {
+                out.push(viol("interned-one-handle-two-data", idx, format!("revision R{rev}: type {ty} handle {id:#x} stands for data {prev} and {data}")));
+            }
+        }
+        // immortal values keep their handle for ever
+        if ty == 3 {
+            for r in (1..rev).rev().take(64) {
+                if let Some(old) = self.by_data.get(&(r, ty, data)) {
+                    if *old != id {
+                        out.push(viol("interned-identity-not-kept", idx, format!("immortal type {ty} data {data}: handle {old:#x} in R{r}, {id:#x} in R{rev}")));
+                    }
+                    break;
+                }
+            }
+        }
+    }
+}
+
+impl Oracle for Canon {
+    fn step(&mut self, cx: &StepCtx) -> Vec<Violation> {
+        let mut out = vec![];
+        for r in cx.recs {
+            match r {
+                Rec::Ev(_, Ev::DidReuseInterned(dk)) => {
+                    self.reused += 1;
+                    self.reused_ids.insert(dk.id);
+                }
+                Rec::End(rec) => {
+                    for (ty, x, id, _) in &rec.interned {
+                        self.note(cx.rev, *ty, *x, *id, cx.idx, &mut out);
+                    }
+                }
+                _ => {}
+            }
+        }
+        if let StepRes::Interned { real: Ok((ty, id, x)), .. } = cx.res {
+            self.note(cx.rev, *ty, *x, *id, cx.idx, &mut out);
+        }
+        out
+    }
+    fn labels(&self) -> Vec<&'static str> {
+        let mut l = vec![];
+        if self.reused > 0 {
+            l.push("slot-reclaimed");
+        }
+        if self.reinterned_after_reuse > 0 {
+            l.push("nontrivial");
+            l.push("value-in-reclaimed-slot-interned-again");
+        }
+        l
+    }
+}
+
+pub fn spec_c08() -> PropSpec {
+    let mut s = spec_c09();
+    s.id = "C08";
+    s.profile.sym_hash_pct = 60;
+    s.profile.sym_dom = 8;
+    s.make = || vec![Box::new(super::c06::Aux(Box::new(ValueOracle::new()))), Box::new(Canon::new())];
+    s
 }
